@@ -57,6 +57,16 @@ MUTANTS = [
     ('update-also-resets-try', T, "            for key, value in kwargs.items():\n                values[getattr(QueuedURL, key)] = value\n",
      "            for key, value in kwargs.items():\n                values[getattr(QueuedURL, key)] = value\n"
      "            values.setdefault(QueuedURL.try_count, 0)\n", 'UpdateExact'),
+    ('add-ignores-level', T, "                convert_dict_enum_values(row_values)\n",
+     "                convert_dict_enum_values(row_values)\n                row_values.pop('level', None)\n", 'NewRowAsGiven'),
+    ('checkin-updates-all-rows', T, "            query = update(QueuedURL).values(values)\\\n                .where(QueuedURL.url_string_id == subquery)\n\n"
+                                    "            session.execute(query)\n\n            if new_status == Status.done",
+     "            query = update(QueuedURL).values(values)\n\n"
+     "            session.execute(query)\n\n            if new_status == Status.done", 'CheckInOthersSame'),
+    ('failed-call-commits', T, "        except:\n            session.rollback()\n", "        except:\n            session.commit()\n",
+     'FailureAtomic'),
+    ('url-not-unique', M, "        nullable=False, unique=True, index=True,\n        doc='Target URL to fetch'",
+     "        nullable=False, index=True,\n        doc='Target URL to fetch'", 'StoredOnce'),
     # model-only differences: must give MODEL-DRIFT, not VIOLATION
     ('DRIFT-checkout-highest-id', T, "                    status=filter_status.value).first()",
      "                    status=filter_status.value).order_by(QueuedURL.id.desc()).first()", None),
